@@ -163,6 +163,45 @@ def run(rep, tier):
         found, good = _pointer_stores(Ctx(rep, cfgname).F, path)
         rep.ob(ri, path, good, "%s: pointer slots" % path, expected="both slots written on every running path", found=found)
 
+    # R10.j: the stack-usage pass keeps no state of its own between loads: the object that survives set_program
+    # (the stack verifier with the registered calculator) is not written by validation, so the table computed for
+    # a program depends on that program and the calculator only
+    rj = rep.rule("R10.j", "the stack verifier kept across loads is not mutated by validating a program (no memo of an earlier program's frame sizes); only the user's calculator state is handed out mutably", floor=1)
+    sv_ty = None
+    adt = F.adts.get("EbpfVmMbuff") or {}
+    for var in adt.get("variants", []):
+        for fld in var.get("fields", []):
+            if fld.get("name") == "stack_verifier":
+                sv_ty = fld.get("ty")
+    meths = sorted(p for p in F.fns if p.startswith("stack::StackVerifier::") and F.fns[p].get("thir") and not re.search(r"::new(::|$)", p))
+    probs = []
+    for p in meths:
+        body = F.fns[p]["thir"]["body"]
+
+        def rooted_at_self(n):
+            n = strip(n)
+            while n.get("k") in ("field", "deref", "index"):
+                n = strip(n.get("e") or n.get("l") or {})
+            return n.get("k") in ("var", "upvar") and n.get("name") == "self"
+
+        def field_chain(n):
+            n, out = strip(n), []
+            while n.get("k") in ("field", "deref", "index"):
+                if n.get("k") == "field":
+                    out.append(n.get("name"))
+                n = strip(n.get("e") or n.get("l") or {})
+            return out[::-1]
+        for n in walk(body):
+            if n.get("k") in ("assign", "assignop") and rooted_at_self(n["l"]) and field_chain(n["l"]):
+                probs.append("%s assigns self.%s" % (p.rsplit("::", 1)[1], ".".join(field_chain(n["l"]))))
+            if n.get("k") == "ref" and n.get("mut") and rooted_at_self(n["e"]) and field_chain(n["e"]):
+                fty = strip(n["e"]).get("ty") or ""
+                if "dyn std::any::Any" in fty or "dyn core::any::Any" in fty:
+                    continue        # the calculator's own state (opaque to the VM)
+                probs.append("%s borrows self.%s mutably" % (p.rsplit("::", 1)[1], ".".join(field_chain(n["e"]))))
+    rep.ob(rj, "stack-verifier", bool(meths) and not probs, "writes to the stack verifier's own fields outside its constructor",
+           expected="none (methods: %s)" % [m.rsplit("::", 1)[1] for m in meths], found=sorted(set(probs)) or "none")
+
     # R10.c who may write prog / verifier
     rc = rep.rule("R10.c", "only new / set_program / set_verifier write the program and verifier fields", floor=2)
     writers = {"prog": set(), "verifier": set()}
